@@ -135,6 +135,10 @@ func runC14(e *Engine, res *EpisodeResult) {
 		}
 		mk := m.Markers[siteID]
 		want := append([]c14loc{{file: mk.File, line: mk.Line}}, c14Chain(&m, mk.Fn, d)...)
+		if mk.Inline {
+			// one more active call: the helper literal, called on the marker's own line
+			want = append([]c14loc{{file: mk.File, line: mk.Line}}, want...)
+		}
 		if locs[0].file != want[0].file || locs[0].line != want[0].line {
 			e.violate("C14.location", "%s: reported location %s, the failing statement is at %s (line %q)", what, locs[0], want[0], srcLine(&m, want[0]))
 			return
@@ -309,6 +313,9 @@ func c14Budget(e *Engine, res *EpisodeResult, m *gen.C14Meta) {
 			return
 		}
 		for i := 1; i < len(locs); i++ {
+			if locs[i].file == locs[i-1].file && locs[i].line == locs[i-1].line && inlineLine(m, locs[i]) {
+				continue // the frame of a helper literal written and called on this line
+			}
 			f, ok := m.Funcs[fn]
 			if !ok {
 				e.violate("C14.trace", "allocation budget %d: trace %v continues below the main file", n, locs)
@@ -329,4 +336,13 @@ func c14Budget(e *Engine, res *EpisodeResult, m *gen.C14Meta) {
 			return
 		}
 	}
+}
+
+func inlineLine(m *gen.C14Meta, l c14loc) bool {
+	for _, mk := range m.Markers {
+		if mk.Inline && mk.File == l.file && mk.Line == l.line {
+			return true
+		}
+	}
+	return false
 }
